@@ -47,6 +47,10 @@ ASSUMPTIONS = [
     "communicate() is assumed to return once the process is gone and cancel() to raise nothing but psutil.NoSuchProcess",
     "threads are fairly scheduled (progress statements are 'some step of the thread is enabled and its rank decreases')",
     "ThreadPoolExecutor in shutdown(wait=False) is modelled with one thread per cancel task (more interleavings than the pool)",
+    "the Lean model has one executor and no ExecutorRegistry: shutdown_all() is a loop of shutdown(wait=False) over the registered "
+    "executors. With one registered executor it executes exactly the primitives of shutdown(wait=False), so every compared "
+    "schedule whose even-numbered wait=False callers go through ExecutorRegistry().shutdown_all() ties it to the model; "
+    "several executors (registry probes, real runs in mode `registry`) are checked on the real code only",
     "the Lean model has one process per job; process trees (a child that ignores SIGTERM) are covered by direct property checks "
     "only: simulated tree probes and real wrapper/child commands, verdict from process state (/proc: alive and no SIGKILL pending)",
     "cancel() must clean up the tree that stands when it is called and what a SIGTERM-surviving solver forks during the 0.5 s "
@@ -205,8 +209,14 @@ class Job:
 class World:
     """one executor, its jobs and shutdown callers, with every blocking primitive under the scheduler"""
 
-    def __init__(self, halmos_mods, cfg: str, timeouts=None, tree=False):
+    def __init__(self, halmos_mods, cfg: str, timeouts=None, tree=False, n_exec=1):
         self.P, self.S = halmos_mods
+        # n_exec > 1 (registry probes, outside the Lean model which has one executor): job i belongs to executor i % n_exec;
+        # executors are registered through fresh `ExecutorRegistry()` calls, shutdown goes through `shutdown_all()`
+        self.n_exec = n_exec
+        self.via_registry = set()        # shutdown callers that went through ExecutorRegistry().shutdown_all()
+        self.reg_done = set()            # executor indices registered so far
+        self.covered = {}                # caller k -> executor indices registered when its shutdown_all() began
         # tree=True (probes outside the Lean model, which has one process per job): every solver process has one child
         # process that ignores SIGTERM; `kids[i]` is its state
         self.tree = tree
@@ -257,7 +267,7 @@ class World:
             def __init__(self):
                 self.role = w.lock_role
                 self.owner = None
-                if self.role == "lock":
+                if self.role == "lock" and w.exec_lock is None:
                     w.exec_lock = self
 
             def acquire(self, blocking=True, timeout=-1):
@@ -550,11 +560,28 @@ class World:
         self.CoopList = CoopList
         self.lock_role = "lock"
         self.ex = InstrumentedExecutor()
+        self.exs = [self.ex] + [InstrumentedExecutor() for _ in range(self.n_exec - 1)]
         self.lock_role = "slock"
         if self.exec_lock is None or self.flag is None:
             raise HarnessError("PopenExecutor no longer creates threading.Lock / threading.Event")
+        # the registry is a process-wide singleton: every world starts with a fresh one; the first executor is registered
+        # the way halmos does it (a constructor call followed by register), the others by their first submitter
+        self._saved_registry = getattr(P.ExecutorRegistry, "_instance", None)
+        P.ExecutorRegistry._instance = None
+        self.register(0)
+
+    def register(self, e):
+        if e not in self.reg_done:
+            self.P.ExecutorRegistry().register(self.exs[e])
+            self.reg_done.add(e)
+
+    def flag_of(self, e) -> bool:
+        ev = getattr(self.exs[e], "_shutdown", None)
+        return bool(getattr(ev, "_f", False))
 
     def restore(self):
+        with __import__("contextlib").suppress(Exception):
+            self.P.ExecutorRegistry._instance = self._saved_registry
         for mod, name, old, had in reversed(self._saved):
             if had:
                 setattr(mod, name, old)
@@ -571,11 +598,14 @@ class World:
             )
             pctx = types.SimpleNamespace(
                 args=args, path_id=i, dump_file=Path(f"/c17-sim/{i}.smt2"), query=None,
-                solving_ctx=types.SimpleNamespace(executor=self.ex),
+                solving_ctx=types.SimpleNamespace(executor=self.exs[i % self.n_exec]),
             )
 
             def body(i=i, pctx=pctx):
                 try:
+                    if self.n_exec > 1:
+                        self.sched.park("sbegin")          # registration is interleaved with the other threads
+                        self.register(i % self.n_exec)
                     o = S.solve_low_level(pctx)
                     r = o.result
                     self.out[i] = r if isinstance(r, str) else str(r)
@@ -593,7 +623,16 @@ class World:
         for k, wait in enumerate(self.waits):
             def hbody(k=k, wait=wait):
                 try:
-                    self.ex.shutdown(wait=wait)
+                    if not wait and k % 2 == 0:
+                        # the way halmos requests it (on_exit / on_signal): a fresh constructor call, then shutdown_all().
+                        # With one registered executor this executes exactly the primitives of ex.shutdown(wait=False).
+                        self.via_registry.add(k)
+                        if self.n_exec > 1:
+                            self.sched.park("hbegin")
+                        self.covered[k] = set(self.reg_done)
+                        P.ExecutorRegistry().shutdown_all()
+                    else:
+                        self.ex.shutdown(wait=wait)
                     self.shout[k] = "ret"
                 except SchedAbort:
                     raise
@@ -659,9 +698,12 @@ class World:
 
     def registered(self) -> list:
         """job ids in the executor's bookkeeping (`_futures`), read without a switch point"""
-        fs = getattr(self.ex, "_futures", [])
-        items = fs.items if isinstance(fs, self.CoopList) else list(fs)
-        return [getattr(f, "_c17_job", -1) for f in items]
+        out = []
+        for ex in self.exs:
+            fs = getattr(ex, "_futures", [])
+            items = fs.items if isinstance(fs, self.CoopList) else list(fs)
+            out += [getattr(f, "_c17_job", -1) for f in items]
+        return out
 
     def exn_kind(self, i):
         f = self.futures.get(i)
@@ -769,7 +811,7 @@ class Run:
 TIMEOUT_POOL = [7.5]
 
 
-def run_real(cfg: str, chooser, max_steps=400, timeouts=None, tree=False) -> Run:
+def run_real(cfg: str, chooser, max_steps=400, timeouts=None, tree=False, n_exec=1) -> Run:
     """chooser(step_index, enabled_labels_sorted) -> label or None (stop)"""
     P, S = mods()
     r = Run(cfg)
@@ -778,7 +820,7 @@ def run_real(cfg: str, chooser, max_steps=400, timeouts=None, tree=False) -> Run
         h = sum(ord(ch) for ch in cfg)
         timeouts = [TIMEOUT_POOL[(h + 3 * n) % len(TIMEOUT_POOL)] for n in range(cfg.count(".") + 1)]
     r.timeouts = timeouts
-    w = World((P, S), cfg, timeouts, tree)
+    w = World((P, S), cfg, timeouts, tree, n_exec)
     try:
         w.start_threads()
         alive_after = {}       # k -> True once shutdown caller k has finished
@@ -894,7 +936,20 @@ def check_quiescence(w: World, r: Run, alive_after: dict):
     for k, _wait in enumerate(w.waits):
         if k not in w.shout:
             continue
+        # executors this caller is responsible for (all, unless it went through a registry that knew only some of them)
+        resp = w.covered.get(k, set(range(w.n_exec))) if k in w.via_registry else {0}
+        if k in w.via_registry and ("registry", k) not in w.flagged:
+            missed = [e for e in sorted(resp) if not w.flag_of(e)]
+            if missed:
+                w.flagged.add(("registry", k))
+                r.spec.append(("registry:shutdown-all-missed-registered-executor",
+                               f"ExecutorRegistry().shutdown_all() returned, but executor(s) {missed} registered before the call "
+                               f"(through ExecutorRegistry().register) were not shut down: flag unset, their jobs "
+                               f"{[i for i in range(len(w.jobs)) if i % w.n_exec in missed]} keep running / being accepted "
+                               f"[shutdown caller {k}, step {n}]"))
         for i, p in w.procs.items():
+            if i % w.n_exec not in resp:
+                continue
             if p.state == "running":
                 key, what = classify_alive(w, i, k)
                 r.spec.append((key, f"{what} [job {i}, shutdown caller {k}, step {n}]"))
@@ -913,6 +968,8 @@ def check_quiescence(w: World, r: Run, alive_after: dict):
         done_at = w.finished_at.get(f"h{k}")
         for i in range(len(w.jobs)):
             first = w.first_step_at.get(f"s{i}")
+            if i % w.n_exec not in resp:
+                continue
             if first is not None and done_at is not None and first > done_at and i in w.registered():
                 r.spec.append(("submit-accepted-after-shutdown-returned",
                                f"submit of job {i} began after shutdown caller {k} returned and was accepted"))
@@ -1273,6 +1330,7 @@ def real_process_runs(ctx, n_runs, literals, forced=None):
 
     old_threading = P.threading
     P.threading = ThreadingProxy()
+    old_registry = getattr(P.ExecutorRegistry, "_instance", None)
     try:
         _real_process_runs(ctx, n_runs, P, ctx.rng, escaped, forced)
         if not forced:
@@ -1281,6 +1339,7 @@ def real_process_runs(ctx, n_runs, literals, forced=None):
     finally:
         threading.excepthook = old_hook
         P.threading = old_threading
+        P.ExecutorRegistry._instance = old_registry
         del RealJob.CREATED[:]
 
 
@@ -1431,7 +1490,7 @@ def detach_stuck_workers(ctx, workers, grace=3.0):
                 pass
 
 
-def bounded_shutdown(ex, wait, jobs, patience=150.0):
+def bounded_shutdown(ex, wait, jobs, patience=150.0, call=None):
     """run `ex.shutdown(wait=...)` of the code under test in a helper thread that can be abandoned.
     -> ("ok", None) | ("raised", exc) | ("hang", why) | ("slow", None).
     "hang" is decided from state, not from time: shutdown(wait=True) is still blocked although the worker thread of
@@ -1440,7 +1499,10 @@ def bounded_shutdown(ex, wait, jobs, patience=150.0):
 
     def body():
         try:
-            ex.shutdown(wait=wait)
+            if call is not None:
+                call()
+            else:
+                ex.shutdown(wait=wait)
             box["ok"] = True
         except BaseException as e:  # noqa: BLE001
             box["exc"] = e
@@ -1496,6 +1558,9 @@ def _real_process_runs(ctx, n_runs, P, rng, escaped, forced=None):
         return RealJob(P, kind, serial[0], escaped)
 
     directed = [
+        # through the registry, the way halmos requests it (on_exit / on_signal): 2 executors, then 1
+        ("nowait", ["sleep-long", "sleep-long", "ignore-term"], False, 2),
+        ("nowait", ["sleep-long", "timeout"], False, 1),
         ("nowait", ["wrapper-child-ignores", "sleep-long"], False),
         ("wait", ["wrapper-child-ignores-timeout", "echo"], False),
         ("nowait", ["sleep-long", "sleep-long", "timeout"], True),
@@ -1509,8 +1574,10 @@ def _real_process_runs(ctx, n_runs, P, rng, escaped, forced=None):
         directed = forced
     for run in range(n_runs):
         del escaped[:]
+        n_exec = 0          # > 0: that many executors, registered through ExecutorRegistry(), shut down by shutdown_all()
         if run < len(directed):
-            mode, chosen, overlap = directed[run]
+            mode, chosen, overlap = directed[run][:3]
+            n_exec = directed[run][3] if len(directed[run]) > 3 else 0
         else:
             mode = rng.choice(["nowait", "nowait", "wait", "wait", "none"])
             pool = [k for k in names if not (mode in ("wait", "none") and k in RealJob.ENDLESS)]
@@ -1529,16 +1596,27 @@ def _real_process_runs(ctx, n_runs, P, rng, escaped, forced=None):
                 if seen_t:
                     chosen[n] = "timeout"
                 seen_t = True
-        ex = P.PopenExecutor()
+        if run >= len(directed) and mode == "nowait" and not overlap and rng.random() < 0.35:
+            n_exec = rng.randint(1, 3)
+        via_registry = n_exec > 0
+        P.ExecutorRegistry._instance = None      # a fresh singleton per run (restored by real_process_runs)
+        exs = [P.PopenExecutor() for _ in range(max(1, n_exec))]
+        ex = exs[0]
         jobs = [make(k) for k in chosen]
-        replay = {"kind": "real", "mode": mode, "jobs": chosen, "overlap": overlap}
-        ctx.count(f"real:{mode}:{'overlap' if overlap else 'started'}")
+        replay = {"kind": "real", "mode": mode, "jobs": chosen, "overlap": overlap, "n_exec": n_exec}
+        ctx.count(f"real:{'registry' + str(n_exec) if via_registry else mode}:{'overlap' if overlap else 'started'}")
         for k in chosen:
             ctx.count(f"real-job:{k}")
         ctx.case(("real", mode, overlap, tuple(chosen)), nontrivial=len(chosen) > 1)
         try:
-            for j in jobs:
-                j.submit(ex)
+            registered = set()
+            for idx, j in enumerate(jobs):
+                j.ex = exs[idx % len(exs)]
+                if via_registry and (idx % len(exs)) not in registered:
+                    # like FunctionContext.__post_init__: a fresh constructor call, interleaved with the submits
+                    P.ExecutorRegistry().register(j.ex)
+                    registered.add(idx % len(exs))
+                j.submit(j.ex)
             slow = False
             if not overlap:
                 t_end = time.time() + 60
@@ -1555,14 +1633,22 @@ def _real_process_runs(ctx, n_runs, P, rng, escaped, forced=None):
             if slow:
                 ctx.count("real:slow:setup-not-ready-in-time(no verdict)")
                 continue
-            lost = [j.kind for j in jobs if not j.f.done() and j.f not in list(ex.futures)]
+            lost = [j.kind for j in jobs if not j.f.done() and j.f not in list(j.ex.futures)]
             if lost:
                 ctx.violation("bookkeeping:unfinished-future-dropped",
                               f"real processes: accepted, unfinished futures {lost} are no longer in executor.futures", replay)
             raised = None
             hung = False
             if mode != "none":
-                how, info = bounded_shutdown(ex, mode == "wait", jobs)
+                how, info = bounded_shutdown(ex, mode == "wait", jobs,
+                                             call=(lambda: P.ExecutorRegistry().shutdown_all()) if via_registry else None)
+                if via_registry and how == "ok":
+                    missed = [e for e in sorted(registered) if not exs[e].is_shutdown()]
+                    if missed:
+                        ctx.violation("real:registry:shutdown-all-missed-registered-executor",
+                                      f"real processes: ExecutorRegistry().shutdown_all() returned but executor(s) {missed} of "
+                                      f"{len(exs)}, registered through ExecutorRegistry().register before the call, are not shut "
+                                      "down (is_shutdown() False)", replay)
                 if how == "raised":
                     raised = info
                 elif how == "slow":
@@ -1625,7 +1711,7 @@ def _real_process_runs(ctx, n_runs, P, rng, escaped, forced=None):
                     path = "timeout" if (j.timeout and j.f.done()) else f"shutdown-{mode}"
                     key = f"real:descendant-alive-after-cancel:{path}"
                 else:
-                    key = f"real:alive-after-shutdown-{mode}"
+                    key = f"real:alive-after-shutdown-{'registry' if via_registry else mode}"
                 ctx.violation(key, f"real processes: job {j.kind}: {what} {pids} ({cmds}) alive, not killed, after "
                                    f"{'shutdown(wait=' + str(mode == 'wait') + ')' } returned / the job's cancel() finished", replay)
             for j in alive:
@@ -1676,11 +1762,14 @@ def _real_process_runs(ctx, n_runs, P, rng, escaped, forced=None):
                 ctx.violation("real:alive-after-result", f"{j.kind}: processes {pids} alive, not killed, after the result "
                                                          "was delivered", replay)
             if mode != "none" and not hung:
-                try:
-                    ex.submit(P.PopenFuture(["true"]))
-                    ctx.violation("real:submit-after-shutdown-accepted", "submit after shutdown returned was accepted", replay)
-                except P.ShutdownError:
-                    pass
+                # (an executor that no job used was never registered: shutdown_all() does not know it)
+                for x in ([exs[e] for e in sorted(registered)] if via_registry else exs):
+                    try:
+                        x.submit(P.PopenFuture(["true"]))
+                        ctx.violation("real:submit-after-shutdown-accepted" + (":registry" if via_registry else ""),
+                                      "submit after shutdown returned was accepted", replay)
+                    except P.ShutdownError:
+                        pass
         finally:
             for j in jobs:
                 j.cleanup()
@@ -1699,7 +1788,8 @@ def report(ctx, variant, r: Run, source):
         seen.add(key)
         ctx.violation(key, what, {"kind": "schedule", "variant": variant, "cfg": r.cfg, "labels": r.labels,
                                   "timeouts": getattr(r, "timeouts", None), "source": source,
-                                  "tree": source.startswith("tree-probe")})
+                                  "tree": source.startswith("tree-probe"),
+                                  "n_exec": int(source.split(":")[1]) if source.startswith("registry-probe") else 1})
 
 
 def follow(labels):
@@ -1876,6 +1966,28 @@ def correspond(ctx):
             if r.error:
                 mismatches.append(f"[tree-probe] cfg {cfg}: {r.error}")
 
+    # --- 2d. registry probes (outside the Lean model: it has one executor and no registry) ----------------------------
+    # 2-3 executors, each registered by its first submitter through a fresh ExecutorRegistry() call (interleaved with the
+    # submits), then ExecutorRegistry().shutdown_all(): every executor registered before that call must be shut down
+    # (flag set, nothing running, nothing accepted). In all other simulated runs the executor is registered the same way and
+    # every even-numbered wait=False caller goes through ExecutorRegistry().shutdown_all() as well.
+    for cfg, n_exec in [("tifu.tifu:0", 2), ("tifu.Tifu.tifu:0", 3), ("tifu.tifu.tifu.tifu:0", 2), ("Tifu.tiFu:0", 2)]:
+        for order in itertools.permutations("shcw"):
+            def rchooser(n, en, order=order):
+                if not en:
+                    return None
+                for cls in order:
+                    cand = [e for e in en if e[0] == cls]
+                    if cand:
+                        return cand[0]
+                return en[0]
+
+            r = run_real(cfg, rchooser, n_exec=n_exec)
+            ctx.case(("registry", cfg, n_exec, order))
+            ctx.count("source:registry-probe")
+            report(ctx, variant, r, f"registry-probe:{n_exec}:" + "".join(order))
+            if r.error:
+                mismatches.append(f"[registry-probe] cfg {cfg}: {r.error}")
     ctx.note(f"t+{time.time() - ctx.t0:.0f}s: tree probes done")
     # --- 3. random walks chosen on the real code ------------------------------------------------------------------------
     n_walks = ctx.scale(250, 4000)
@@ -1934,7 +2046,7 @@ def correspond(ctx):
 
     ctx.note(f"t+{time.time() - ctx.t0:.0f}s: model comparison done")
     # --- 5. real subprocesses ------------------------------------------------------------------------------------------
-    real_process_runs(ctx, ctx.scale(14, 150), literals)
+    real_process_runs(ctx, ctx.scale(15, 150), literals)
 
     if mismatch:
         mismatches.append(mismatch)
@@ -1966,12 +2078,13 @@ def replay(ctx, data) -> bool:
         return any(v["key"] == want for v in ctx.violations) if want else bool(ctx.violations)
     if d.get("kind") == "real":
         # the same job mix, three times (real processes: the overlap cases depend on timing)
-        forced = [(d["mode"], list(d["jobs"]), bool(d.get("overlap")))] * 3
+        forced = [(d["mode"], list(d["jobs"]), bool(d.get("overlap")), int(d.get("n_exec") or 0))] * 3
         ctx.extra.setdefault("variant", detect_variant())
-        real_process_runs(ctx, len(forced), [], forced=[(m, list(j), o) for m, j, o in forced])
+        real_process_runs(ctx, len(forced), [], forced=[(m, list(j), o, n) for m, j, o, n in forced])
         want = data.get("key")
         return any(v["key"] == want for v in ctx.violations) if want else bool(ctx.violations)
-    r = run_real(d["cfg"], follow_loose(d["labels"]), timeouts=d.get("timeouts"), tree=bool(d.get("tree")))
+    r = run_real(d["cfg"], follow_loose(d["labels"]), timeouts=d.get("timeouts"), tree=bool(d.get("tree")),
+                 n_exec=int(d.get("n_exec") or 1))
     keys = {k for k, _ in r.spec}
     want = data.get("key")
     return (want in keys) if want else bool(keys)
